@@ -29,6 +29,7 @@ pub mod c02;
 pub mod c03;
 pub mod c04;
 pub mod c05;
+pub mod c06;
 pub mod c07;
 pub mod c08;
 pub mod c09;
@@ -49,6 +50,7 @@ pub fn run(property: &str, tier: Tier, seed: u64) -> Option<MonOut> {
         "C03" => Some(c03::run(tier, seed)),
         "C04" => Some(c04::run(tier, seed)),
         "C05" => Some(c05::run(tier, seed)),
+        "C06" => Some(c06::run(tier, seed)),
         "C07" => Some(c07::run(tier, seed)),
         "C08" => Some(c08::run(tier, seed)),
         "C09" => Some(c09::run(tier, seed)),
